@@ -341,10 +341,14 @@ FView(l, typed, sess) ==
     [] l.kind \in {"RESULT_SCHEMA", "EVENT_SCHEMA"} -> SchemaView(l.v, b)
     [] l.kind \in {"EVENT_TOPOLOGY", "EVENT_STATUS"} -> [change |-> b.change, addr |-> b.addr, port |-> b.port]
     [] l.kind = "RESULT_PREPARED" ->
-         [id |-> b.id, pk |-> IF l.v >= 4 THEN b.pk ELSE <<>>,
-          req |-> MetaView(b.req, 0), gks |-> IF b.req.global THEN b.req.gks ELSE <<>>,
-          gtable |-> IF b.req.global THEN b.req.gtable ELSE <<>>,
-          res |-> IF l.v >= 2 THEN MetaView(b.res, 0) ELSE [flags |-> 0, colcount |-> 0, paging |-> <<>>, cols |-> <<>>]]
+         \* through the public API (QueryInfo) only the id, the columns and the pk indexes are visible
+         LET mv(m) == IF sess THEN [flags |-> -1, colcount |-> -1, paging |-> <<>>, cols |-> IF m.nometa THEN <<>> ELSE m.cols]
+                      ELSE MetaView(m, 0)
+             none == [flags |-> IF sess THEN -1 ELSE 0, colcount |-> IF sess THEN -1 ELSE 0, paging |-> <<>>, cols |-> <<>>]
+         IN [id |-> b.id, pk |-> IF l.v >= 4 THEN b.pk ELSE <<>>,
+             req |-> mv(b.req), gks |-> IF b.req.global /\ ~sess THEN b.req.gks ELSE <<>>,
+             gtable |-> IF b.req.global /\ ~sess THEN b.req.gtable ELSE <<>>,
+             res |-> IF l.v >= 2 THEN mv(b.res) ELSE none]
     [] l.kind = "RESULT_ROWS" ->
          LET known == sess \/ ~b.meta.nometa
              mv == MetaView(b.meta, 0)
@@ -353,16 +357,19 @@ FView(l, typed, sess) ==
             @@ RowsConsumers(b.meta.cols, b.rows, known, typed)
 
 \* the whole view.  comp: the body travelled compressed (flag 0x01 set by whoever compressed
-\* it; the frame length is then the compressed length, not decided here).
-ExpView(l, typed, comp, sess) ==
+\* it; the frame length is then the compressed length, not decided here).  sess: observed
+\* through a live session (stream id chosen by the driver).  api: only what the public API
+\* hands out is observed (the PREPARED response through QueryInfo): no header, no prefixes.
+ExpView(l, typed, comp, sess, api) ==
   [panic |-> "", perr |-> "",
-   hv |-> l.v, hresp |-> TRUE, hflags |-> HFlags(l) + (IF comp THEN HF_COMPRESS ELSE 0),
-   hstream |-> IF sess THEN 0 ELSE l.stream, hop |-> Opcode(l.kind),
-   hlen |-> IF comp THEN -1 ELSE Len(FullBody(l)),
+   hv |-> IF api THEN 0 ELSE l.v, hresp |-> ~api,
+   hflags |-> IF api THEN 0 ELSE HFlags(l) + (IF comp THEN HF_COMPRESS ELSE 0),
+   hstream |-> IF sess THEN 0 ELSE l.stream, hop |-> IF api THEN 0 ELSE Opcode(l.kind),
+   hlen |-> IF api THEN 0 ELSE IF comp THEN -1 ELSE Len(FullBody(l)),
    rem0 |-> IF sess THEN -1 ELSE IF l.kind = "RESULT_ROWS" THEN Len(WRowsContent(l.b.rows)) ELSE 0,
    trace |-> IF l.tracing THEN l.traceid ELSE <<>>,
-   warnings |-> IF l.warn THEN l.warnings ELSE <<>>,
-   payload |-> IF l.pay THEN l.payload ELSE <<>>,
+   warnings |-> IF l.warn /\ ~api THEN l.warnings ELSE <<>>,
+   payload |-> IF l.pay /\ ~api THEN l.payload ELSE <<>>,
    kind |-> ViewKind(l.kind),
    f |-> FView(l, typed, sess)]
 
